@@ -88,6 +88,18 @@ CHECKS = {
    design="6/C16",
    note="Nesting deeper than 64 is outside the statement's stack clause: stack overflows there are counted in the evidence, not judged.",
    technique="runtime monitoring: panic capture + fixed-stack threads + process supervisor over mutated inputs"),
+ "C14": dict(
+   level="exploration",
+   text="Builder-as-child-process monitor over programs x configurations: hostile-named G_thrift documents (+ fixed directed documents) built in 16 configurations; observations = exit status/stderr of pilota-build and rustc diagnostics (cargo check of a crate that include!s every output as a module against the working tree's pilota).",
+   design="6/C14",
+   note="Thrift documents only so far (G_proto joins with the protobuf pipeline). Uniqueness of names only in Thrift's own terms. Six prelude names and recursive unions are covered by directed documents (recorded findings), not by the random profile.",
+   technique="runtime monitoring: child-process status + compiler diagnostics over generated programs"),
+ "C17": dict(
+   level="exploration",
+   text="Output-equality monitor over schedules: each corpus built R times in fresh processes (fresh hash seeds) x RAYON_NUM_THREADS in {1..16} x jitter hook x concurrent builders, in single/split/workspace mode; file set and contents must be identical; the hook's order log reports how many distinct task completion orders were actually seen (floor >= 5).",
+   design="6/C17",
+   note="Schedules are sampled. Thrift corpora only so far (protobuf joins with the protobuf pipeline). Needs the cfg(pilota_verif) hook for jitter/order observation; without it the equality oracle still runs but the order floor is unmet (inconclusive).",
+   technique="runtime monitoring: process repetition under injected jitter, file-content comparison, observed-order counting"),
 }
 
 NOT_YET = "check not built yet (work in progress; see DESIGN.md section 6 for the planned monitor)"
@@ -116,7 +128,7 @@ def main():
             "guard": "--cfg pilota_verif",
             "enable": "RUSTFLAGS='--cfg pilota_verif' when building /verif/harness (path dependencies on /repo)",
             "baseline_off_cmd": "cd /repo && cargo test --workspace --no-fail-fast --offline",
-            "source_commits": [],
+            "source_commits": ["c6fab14"],
             "add_only": True,
         },
         "engines": [
